@@ -102,7 +102,9 @@ def run(ck):
             h2, t2, d2 = (sym.mem_read(p.mem, fld(x)) for x in ('head', 'tail', 'datasize'))
             if not (h2 == C(0) and t2 == ('v', 'size') and d2 == ('v', 'size')):
                 ok = False
-        ck.verdict(ok, 'C19.b', 'octet_ring_init', cast.where(u.fn('octet_ring_init')), 'init: head = 0, tail = datasize = size (empty)' if ok else 'init does not establish head = 0, tail = datasize = size')
+            if sym.mem_read(p.mem, fld('override_if_full')) != C(0) or sym.mem_read(p.mem, fld('data')) != ('v', 'buf'):
+                ok = False
+        ck.verdict(ok, 'C19.b', 'octet_ring_init', cast.where(u.fn('octet_ring_init')), 'init: data = buf, head = 0, tail = datasize = size (empty), override mode off' if ok else 'init does not establish data = buf, head = 0, tail = datasize = size, override_if_full = false')
         # the clearing loop of init writes only data[0 .. size)
         bad_i = None
         nst = 0
